@@ -200,6 +200,20 @@ class World:
             if attr == "message":
                 return o.args[0] if o.args else Opaque("message")
             return Opaque("exc-attr")
+        if attr in ("denominator", "numerator") and (is_sym_real(o) or is_sym_int(o) or
+                                                     isinstance(o, (int, Fraction))):
+            if isinstance(o, (int, Fraction)):
+                return getattr(Fraction(o), attr)
+            if is_sym_int(o):
+                return 1 if attr == "denominator" else o
+            d = ex.fresh("den", I)
+            ex.assume(d >= 1)
+            ex.assume((d == 1) == z3.IsInt(o))
+            if attr == "denominator":
+                return d
+            n = ex.fresh("num", I)
+            ex.assume(z3.ToReal(n) == o * z3.ToReal(d))
+            return n
         key = (type(o).__name__, attr)
         m = self.builtins.get("method:%s.%s" % key)
         if m is None:
@@ -392,11 +406,11 @@ class World:
     def touch(self, ex, t):
         """First contact with a node term on this path: node-invariant facts
         that need neither operator nor arity."""
-        seen = ex.ghost.setdefault("touched", set())
+        seen = ex.ghost.setdefault("touched", {})
         k = t.get_id()
         if k in seen:
             return t
-        seen.add(k)
+        seen[k] = t
         for f in self.cached_facts(("shallow", k, t), lambda: spec.shallow_facts(t)):
             ex.assume(f)
         return t
